@@ -147,6 +147,10 @@ func (in *Interp) spawn(fr *frame, pos token.Pos, fn value, args []value) {
 	if s == nil {
 		unsupported("go statement outside a path")
 	}
+	if f, ok := fn.(*ssa.Function); ok && in.cfg.DropGo[f.String()] {
+		in.usedStubs["go "+f.String()+" (dropped)"] = true
+		return
+	}
 	s.multi = true
 	t := &thread{id: len(s.threads), resume: make(chan struct{}, 1), started: true}
 	s.threads = append(s.threads, t)
